@@ -16,13 +16,13 @@ var hostilePool = func() []hx.Val {
 	inf32 := hx.Val{K: "float32", S: "+Inf"}
 	vs := []hx.Val{
 		hx.Int(0), hx.Int(7), hx.Int(math.MinInt32), hx.Int(math.MaxInt32), hx.Int(math.MaxInt32 + 1), hx.Int(math.MinInt32 - 1), hx.Int(1 << 33), hx.Int(math.MaxInt64),
-		hx.I64(5), hx.I64(math.MaxInt32 + 1), hx.I64(math.MinInt32 - 1), hx.I64(1 << 33), hx.I64(math.MinInt64), hx.I64(1 << 53), hx.I64(1600000000),
+		hx.I64(5), hx.I64(math.MaxInt32 + 1), hx.I64(math.MinInt32 - 1), hx.I64(1 << 33), hx.I64(math.MinInt64), hx.I64(1 << 53), hx.I64(1600000000), hx.I64(10000000000), hx.I64(-10000000000), hx.I64(253402300799), hx.I64(253402300800), hx.I64(-62167219200), hx.I64(-62167219201),
 		hx.I32(5), hx.I32(math.MinInt32), hx.I32(0),
 		hx.IntKind("int8", -128), hx.IntKind("int16", 32767), hx.IntKind("uint8", 200), hx.IntKind("uint16", 65535),
 		hx.IntKind("uint32", math.MaxUint32), hx.IntKind("uint32", 9), hx.IntKind("uint", 1<<40), hx.IntKind("uint", 3),
 		{K: "uint64", S: "18446744073709551615"}, {K: "uint64", S: "9223372036854775808"}, {K: "uint64", S: "4"},
 		hx.F64(0.5), hx.F64(3.9), hx.F64(-3.9), hx.F64(2147483647), hx.F64(2147483648), hx.F64(-2147483649), hx.F64(1e300), hx.F64(-1e300),
-		hx.F64(math.NaN()), hx.F64(math.Inf(1)), hx.F64(math.Inf(-1)), hx.F64(5e-324), hx.F64(3.5e38), hx.F64(3.4e38), hx.F64(4), hx.F64(1e19), hx.F64(1600000000.5),
+		hx.F64(math.NaN()), hx.F64(math.Inf(1)), hx.F64(math.Inf(-1)), hx.F64(5e-324), hx.F64(3.5e38), hx.F64(3.4e38), hx.F64(4), hx.F64(1e19), hx.F64(1600000000.5), hx.F64(1e10), hx.F64(-1e10), hx.F64(253402300800), hx.F64(-62167219201),
 		hx.F32(1.5), hx.F32(math.MaxFloat32), hx.F32(3), nan32, inf32, hx.F32(2147483648), hx.F32(-2147483648), hx.F32(2147483520), hx.F32(-2147483904), hx.F32(4294967296), hx.F32(16777216),
 		// time strings Go's parser takes but RFC 3339 does not write that way
 		hx.Str("2020-01-01T00:00:00,5Z"), hx.Str("2021-06-30T7:08:09Z"), hx.Str("2020-01-02T03:04:05.000000000Z"), hx.Str("2020-01-02T03:04:05+00:00"),
